@@ -7,7 +7,7 @@ check("C02", "exploration",
       "(Trace_Pipeline.tla). A 5% sample and every anomalous run also go through the real `penne emit` binary. The recogniser of the documented grammar (SyntaxRules.tla: pushdown recogniser over token classes, verdict valid | unc | invalid(lo, hi); all class sequences up to the bound in 7 contexts, every single-token fault of the derived modules, mutated corpus files validated by TLC on the real token stream) contributes the discrepancies that belong to this property.",
       "The observation 'the process died / hung / panicked' is made by the harness, not derived by TLC; the specification supplies the "
       "protocol, the invariants and the exhaustive part of the input space. Trusted: TLC, the worker driving the library in main.rs order "
-      "(cross-checked on the CLI sample). Bounds: quick = token sequences <= 2 over 86 symbols x 2 contexts, module sets <= 2 modules/2 decls, "
+      "(cross-checked on the CLI sample). Structured cells (PipelineShapes.tla, MC_PipelineWide.tla): every builtin x 0-3 arguments x argument kind x 6 contexts x one / two / three modules x wasm, nesting at 126-129 in 18 reference and 9 type constructs (verdict E390 from docs/errors.md), exact source sizes up to 65 536 bytes, symbol-table shapes (flags x kind of definition x placement), names shared between modules, sets of 4-6 modules in 8 import topologies x fault placement x position of main. Bounds: quick = token sequences <= 2 over 86 symbols x 2 contexts, module sets <= 2 modules/2 decls, "
       "~14k seeded inputs; thorough = + sequences <= 3 over 56 core symbols, sets <= 3 modules, ~170k seeded inputs. Nesting <= 256, texts <= 64 KiB.",
       "TLA+ spec (Pipeline.tla, PipelineTokens.tla) + TLC exhaustive enumeration, isolated worker processes with crash/hang isolation, TLC trace validation",
       "DESIGN.md section 5 C02")
